@@ -10,7 +10,7 @@ result from the state they are given (no remembered state)."""
 import ast
 from ..core import (AnalysisError, short, unparse, iter_own, call_name, call_recv, kwarg,
                     is_self_attr, atomic_facts, parents, enclosing_stmt, enclosing_func, const_value)
-from .. import tables
+from .. import tables, symex
 
 MATH = 'pylatexenc.latexnodes.parsers._math'
 DELTA = 'pylatexenc.latexnodes._parsingstatedelta'
@@ -24,6 +24,101 @@ COLL = 'pylatexenc.latexnodes._nodescollector'
 
 TEXT_MACROS = ('text', 'textrm', 'textit', 'textbf', 'textsc', 'textsl', 'textsf', 'texttt',
                'textmd', 'textup', 'mbox')
+
+
+def _loop_var_over(f, name, attr):
+    """is `name` bound by a for loop of f iterating over (an enumerate of) self.<attr>"""
+    for l in iter_own(f):
+        if isinstance(l, ast.For) and any(isinstance(n, ast.Name) and n.id == name for n in ast.walk(l.target)) \
+                and any(is_self_attr(n, attr) for n in ast.walk(l.iter)):
+            return True
+    return False
+
+
+def _per_argument_state(meths, ap):
+    """(reason or None, node, number of cases).  The state handed to parse_content for an
+    argument must be get_updated_parsing_state_from_delta(<call state>, <that argument>.
+    parsing_state_delta, ...) -- or the call state itself on a path where that delta is None --
+    on every structural path, whether the loop body lives in parse() or in a helper method."""
+    n = 0
+    where = None
+    for fname, f in sorted(meths.items()):
+        fparams = [a.arg for a in f.args.args]
+        try:
+            cases = symex.sink_cases(f, lambda c: call_name(c) == 'parse_content')
+        except symex.TooManyPaths as e:
+            return str(e), f, n
+        for cs in cases:
+            n += 1
+            where = cs.node
+            st = cs.sub.args[2] if len(cs.sub.args) > 2 else kwarg(cs.sub, 'parsing_state')
+            if st is None:
+                return 'parse_content is called without a parsing state', cs.node, n
+            d = cs.env.get('#def', {}).get(st.id) if isinstance(st, ast.Name) else None
+            if isinstance(d, ast.AST):
+                st = d
+            path = ' & '.join(cs.cond_src())[:100]
+            if isinstance(st, ast.Call) and call_name(st) == 'get_updated_parsing_state_from_delta' \
+                    and len(st.args) >= 2:
+                P, D = st.args[0], st.args[1]
+                if not (isinstance(D, ast.Attribute) and D.attr == 'parsing_state_delta'
+                        and isinstance(D.value, ast.Name)):
+                    return 'the delta applied is %s, not <argument spec>.parsing_state_delta' % short(D), cs.node, n
+                A = D.value.id
+            elif isinstance(st, ast.Name):
+                # the call state itself: only on a path where the argument's delta is None
+                P = st
+                A = None
+                for t, pol in cs.conds:
+                    for a, ap_ in symex._atoms(t, pol):
+                        tx = unparse(a)
+                        if (ap_ and tx.endswith('.parsing_state_delta is None')) or \
+                                (not ap_ and tx.endswith('.parsing_state_delta is not None')) or \
+                                (not ap_ and tx.endswith('.parsing_state_delta')):
+                            A = tx.split('.parsing_state_delta')[0]
+                if A is None:
+                    return ('on the path [%s] the argument is parsed in state %s, which is not the '
+                            'call state updated by the argument\'s delta (a state left over from an '
+                            'earlier argument leaks into this one)' % (path, short(st))), cs.node, n
+            else:
+                return 'on the path [%s] the argument state is %s' % (path, short(st)), cs.node, n
+            if not (isinstance(P, ast.Name) and P.id in fparams):
+                return ('the state updated is %s, not the state the parser was called with'
+                        % short(P)), cs.node, n
+            # relate P and A to parse()'s own state / loop variable
+            if f is ap:
+                if P.id != ap.args.args[3].arg:
+                    return 'the state updated is parameter %s, not the parsing state' % P.id, cs.node, n
+                if not _loop_var_over(f, A, 'arguments_spec_list'):
+                    return '%s is not the loop variable over self.arguments_spec_list' % A, cs.node, n
+            else:
+                if A not in fparams:
+                    return '%s is neither a parameter nor the loop variable' % A, cs.node, n
+                hp = fparams[1:]
+                ok_call = False
+                try:
+                    hc = symex.sink_cases(ap, lambda c: call_name(c) == fname and
+                                          isinstance(c.func, ast.Attribute) and unparse(c.func.value) == 'self')
+                except symex.TooManyPaths as e:
+                    return str(e), ap, n
+                for h in hc:
+                    amap = dict(zip(hp, h.sub.args))
+                    amap.update((k.arg, k.value) for k in h.sub.keywords if k.arg)
+                    pa, aa = amap.get(P.id), amap.get(A)
+                    if pa is None or aa is None:
+                        continue
+                    if not (isinstance(pa, ast.Name) and pa.id == ap.args.args[3].arg):
+                        return ('parse() hands %s to %s as the state, not its own parsing state'
+                                % (short(pa), fname)), h.node, n
+                    if not (isinstance(aa, ast.Name) and _loop_var_over(ap, aa.id, 'arguments_spec_list')):
+                        return ('parse() hands %s to %s as the argument spec, not the loop variable '
+                                'over self.arguments_spec_list' % (short(aa), fname)), h.node, n
+                    ok_call = True
+                if not ok_call:
+                    return 'parse() does not call %s with the state and the argument spec' % fname, f, n
+    if n == 0:
+        return 'no parse_content call in LatexArgumentsParser', ap, 0
+    return None, where, n
 
 
 def run(ctx):
@@ -286,17 +381,12 @@ def run(ctx):
     ap = am.methods('LatexArgumentsParser').get('parse')
     if ap is None:
         raise AnalysisError('anchor vanished: LatexArgumentsParser.parse')
-    upd = [s for s in iter_own(ap) if isinstance(s, ast.Assign) and isinstance(s.value, ast.Call)
-           and call_name(s.value) == 'get_updated_parsing_state_from_delta']
-    pc = [c for c in iter_own(ap) if isinstance(c, ast.Call) and call_name(c) == 'parse_content']
-    ok = len(upd) == 1 and len(pc) == 1 and unparse(upd[0].value.args[0]) == 'parsing_state' and \
-        unparse(upd[0].value.args[1]) == 'arg.parsing_state_delta' and \
-        unparse(upd[0].targets[0]) != 'parsing_state' and \
-        unparse(pc[0].args[2] if len(pc[0].args) > 2 else kwarg(pc[0], 'parsing_state')) == unparse(upd[0].targets[0])
-    ctx.decide('R10h', ok, am, upd[0] if upd else ap,
-               'argument state = call state + the argument\'s own delta, used for that argument only',
+    why, where, n_cases = _per_argument_state(am.methods('LatexArgumentsParser'), ap)
+    ctx.decide('R10h', why is None, am, where or ap,
+               'argument state = call state + the argument\'s own delta, used for that argument only '
+               '(%d structural case(s))' % n_cases,
                'the arguments parser does not parse each argument in (call state + that argument\'s '
-               'delta)', construct='LatexArgumentsParser.parse: per-argument state')
+               'delta): %s' % why, construct='LatexArgumentsParser.parse: per-argument state')
     cm = repo.mod(CALLP)
     mb = cm.methods('LatexEnvironmentCallParser').get('make_body_parser_and_parsing_state')
     t = unparse(mb) if mb is not None else ''
